@@ -113,6 +113,7 @@ pub fn run(ctx: &Ctx) -> Outcome {
     let cfg = TapeCfg::new(ctx, 1500, 60_000, 600);
     out.shards = cfg.shards;
     out.absorb(tape_search(ctx, "main", &cfg, check, describe));
+    out.assumptions.push("the OS messages are the literal texts of the pinned OS image (\"\\n--- Access violation ---\\n\" etc.); the property only says that the OS message for that exception is printed".into());
     out.essential = ["ending:Halt", "ending:AcvLoad", "ending:AcvStore", "ending:JumpOut", "ending:Rti", "ending:Illegal", "ending:BadFormat", "fault-inside-open-subroutine-frame"].iter().map(|s| s.to_string()).collect();
     out
 }
